@@ -7,7 +7,7 @@
    schedule of all the goroutines holding ends of the streams; the arguments [ch] of
    ORecv / OFwd are the outcomes of Go's [select]s.  "forall fuel ops" therefore quantifies
    over every tree, every item sequence, every capacity and every interleaving. *)
-From Eino Require Import Base.Util Model.Stream Proofs.Stream Proofs.StreamRel Proofs.StreamWf Proofs.StreamClose Proofs.StreamLink Proofs.StreamSem Proofs.StreamEof Proofs.StreamOnce.
+From Eino Require Import Base.Util Model.Stream Proofs.Stream Proofs.StreamRel Proofs.StreamWf Proofs.StreamClose Proofs.StreamLink Proofs.StreamSem Proofs.StreamEof Proofs.StreamOnce Proofs.StreamTrace Proofs.StreamRank Proofs.StreamTotal.
 
 (* ------------------------------------------------------------------ base streams *)
 
@@ -190,6 +190,62 @@ Theorem copy_each_child_full : forall fuel ops bs G,
 Proof. exact run_copy_child_full. Qed.
 Print Assumptions copy_each_child_full.
 
+(* ------------------------------------------------------------------ strands exist *)
+
+(* derivation_well_founded: in every reachable state (no hypothesis) base streams and copy
+   parents can be ranked so that the reader a forwarder goroutine reads only refers to objects
+   of smaller rank than the stream it feeds, and the reader a copy parent reads only to objects
+   of smaller rank than the parent: no reader is derived from itself. *)
+Theorem derivation_well_founded : forall fuel ops bs G, run fuel init_state ops = (bs, G) ->
+  exists rs rp : nat -> nat,
+    (forall F, In F (st_fwds G) -> Forall (fun r => rkr rs rp r < rs (f_dst F)) (refs (f_src F)))
+    /\ (forall q Q, nth_error (parents (st_store G)) q = Some Q ->
+           Forall (fun r => rkr rs rp r < rp q) (refs (p_src Q))).
+Proof. exact reachable_ranked. Qed.
+Print Assumptions derivation_well_founded.
+
+(* strands_total: hence [strands] — the fuel-bounded function the tree theorems and the
+   correspondence check use — returns a value for every live reader of every reachable state,
+   for all sufficiently large fuels the same value. *)
+Theorem strands_total : forall fuel ops bs G, run fuel init_state ops = (bs, G) ->
+  forall h H, nth_error (st_handles G) h = Some H -> h_live H = true ->
+    exists N, forall w, exists strs, forall M, N <= M -> strands M G w (h_rd H) = Some strs.
+Proof. exact run_strands_total. Qed.
+Print Assumptions strands_total.
+
+(* tree_delivery (fuel-free form of merge_is_interleaving + tree_delivery_full): every live
+   reader of a legal run has strands; what it has received is an order-preserving interleaving
+   of prefixes of them, and a complete interleaving once Recv has returned io.EOF. *)
+Theorem tree_delivery : forall fuel ops bs G,
+  run fuel init_state ops = (bs, G) -> legal_run fuel ops ->
+  forall h H, nth_error (st_handles G) h = Some H -> h_live H = true ->
+  exists strs,
+    (exists N, forall M, N <= M -> strands M G (cur_w G) (h_rd H) = Some strs)
+    /\ Shuf false (h_got H) strs /\ is_interleaving_of false (h_got H) strs = true
+    /\ (h_eof H = true -> Shuf true (h_got H) strs /\ is_interleaving_of true (h_got H) strs = true).
+Proof. exact run_tree_delivery_total. Qed.
+Print Assumptions tree_delivery.
+
+(* ------------------------------------------------------------------ logs = observable trace *)
+
+(* recv_log_is_trace / sent_log_is_trace: the logs the theorems above and below speak about are
+   projections of the observable trace [(ops, bs)] of the run, for every schedule (no
+   hypothesis): [h_got] of a reader handle is exactly the sequence of items its Recv calls
+   returned, [h_eof] says whether one of them returned io.EOF, and [s_sent] of a pipe (= [cur_w],
+   the strands of the tree theorems) is exactly the sequence of items whose Send returned
+   closed = false.  The tree theorems therefore relate what Send accepted to what Recv returned. *)
+Theorem recv_log_is_trace : forall fuel ops bs G, run fuel init_state ops = (bs, G) ->
+  forall h H, nth_error (st_handles G) h = Some H ->
+    h_got H = recv_trace h ops bs /\ h_eof H = eof_trace h ops bs.
+Proof. exact run_recv_log_is_trace. Qed.
+Print Assumptions recv_log_is_trace.
+
+Theorem sent_log_is_trace : forall fuel ops bs G, run fuel init_state ops = (bs, G) ->
+  forall sid s, nth_error (streams (st_store G)) sid = Some s -> s_user s = true ->
+    s_sent s = sent_trace sid ops bs.
+Proof. exact run_sent_log_is_trace. Qed.
+Print Assumptions sent_log_is_trace.
+
 (* ------------------------------------------------------------------ close propagation *)
 
 (* [legal_run2 fuel ops]: a legal run in which, moreover, user code closes every reader at
@@ -274,6 +330,13 @@ Example ex_strands :
   let G := snd (run 50 init_state ex_ops) in
   option_map (fun H => (h_got H, h_live H, h_eof H, strands 20 G (cur_w G) (h_rd H))) (nth_error (st_handles G) 5)
   = Some ([IVal 12%N; IVal 7%N; IVal 8%N], true, true, Some [[IVal 12%N]; [IVal 7%N; IVal 8%N]]).
+Proof. vm_compute. reflexivity. Qed.
+
+(* the logs of the example are the projections of its trace *)
+Example ex_trace :
+  let '(bs, G) := run 50 init_state ex_ops in
+  (recv_trace 5 ex_ops bs, eof_trace 5 ex_ops bs, sent_trace 0 ex_ops bs, recv_trace 2 ex_ops bs)
+  = ([IVal 12%N; IVal 7%N; IVal 8%N], true, [IVal 1%N; IVal 2%N], [IVal 12%N]).
 Proof. vm_compute. reflexivity. Qed.
 
 (* after both derived readers are closed: every stream receive-closed once, the copy parent
